@@ -181,6 +181,33 @@ def build(rng, tier):
             inst = f"{vid}_{gi}_{k}"
             ops = [f"eng new {inst} {vid}", f"eng load {inst} r0" + "".join(" " + eng.sx_tuple(t) for t in rows), f"eng run {inst}", f"eng dump {inst}"]
             cases.append(engcheck.Case(vid, inst, ops, {"inp": {0: rows, 1: [], 2: []}, "kind": "lattice-" + kind + "-shuffled-input", "expected": exp, "mapped": False}))
+    # mutually independent body items of the SURFACE language: a macro invocation inside a disjunction and a second invocation of a macro with a private variable of the
+    # same spelling, in both textual orders -  out(x, y) <-- (m!(x) | g(x)), m!(y)   vs   out(x, y) <-- m!(y), (m!(x) | g(x))  - on inputs in which the two invocations
+    # need different witnesses for the private variable.  Model side: the documented expansion (tools/vlib/surface.py expand_spec), which does not depend on the order
+    from . import surface as S
+    for k in range(3 if tier == "quick" else 9):
+        mac = lambda: {"params": ["ident"], "body": [("cl", 0, [("v", ("p", 0)), ("v", 7)], []), ("cl", 1, [("v", 7)], [])]}
+        macros = [mac()] + ([mac()] if k % 3 == 1 else [])
+        m2 = len(macros) - 1
+        inv_x = ("or", [[("mac", 0, [("id", 0)])], [("cl", 2, [("v", 0)], [])]])
+        inv_y = ("mac", m2, [("id", 1)]) if k % 3 != 2 else ("or", [[("cl", 2, [("v", 1)], [("if", ("lt", ("var", 1), 0))])], [("mac", m2, [("id", 1)])]])
+        rels = [{"arity": 2}, {"arity": 1}, {"arity": 1}, {"arity": 2}]
+        base = None
+        for vi, body in enumerate(([inv_x, inv_y], [inv_y, inv_x])):
+            sp = {"rels": rels, "macros": macros, "rules": [{"heads": [(3, [("var", 0), ("var", 1)])], "body": body}]}
+            q = S.expand_spec(sp)
+            if base is None: base = q
+            vid = f"md{k}_{vi}"
+            progs[vid] = q; mods.append((vid, S.rs_module(vid, sp)))
+        for j in range(4 if tier == "quick" else 12):
+            r2 = rng.fork(f"md{k}i{j}")
+            e = list(dict.fromkeys([(1, 10), (2, 20)] + [(r2.below(4), 10 + r2.below(4)) for _ in range(r2.below(4))])) if j % 2 == 0 else \
+                list(dict.fromkeys((r2.below(4), 10 + r2.below(4)) for _ in range(r2.range(2, 5))))
+            inp = {0: r2.shuffle(e), 1: [(w,) for w in sorted({w for _, w in e}) if r2.chance(3, 4)], 2: [(r2.below(5),) for _ in range(r2.below(2))], 3: []}
+            exp = {r: {eng.sx_tuple(t) for t in eng.naive_model(base, inp).get(r, ())} for r in range(4)}
+            for vi in range(2):
+                vid = f"md{k}_{vi}"; inst = f"{vid}_{j}"
+                cases.append(engcheck.Case(vid, inst, engcheck.std_history(inst, vid, inp), {"inp": inp, "kind": "macro-disjunction-" + ("base" if vi == 0 else "body-items-swapped"), "expected": exp, "mapped": False}))
     return progs, mods, cases
 
 
